@@ -185,6 +185,20 @@ fn main() {
             let t = cfg.tier.thorough();
             assumptions.push("the adversary's corruption alphabet is the 11 classes of session.rs (one representative position each; C06 enumerates every bit); positions outside the start sets and embedding windows are not covered".into());
             go(&session::E2a { focus: session::Focus::Receiver, suites: session::seq_suites(false), ws: if t { vec![3, 4, 5] } else { vec![3] } }, &cfg, &mut reports, &mut replayed);
+            if let Some(path) = &args.cases {
+                // the state graph dumped by TLC (see model/, produced by ./check)
+                match session::load_tlc_edges(path) {
+                    Ok(edges) => {
+                        let stats = std::fs::read_to_string(path.with_extension("stats.json")).ok().and_then(|s| serde_json::from_str(&s).ok()).unwrap_or(serde_json::Value::Null);
+                        let w = stats["W"].as_u64().unwrap_or(2) as u8;
+                        go(&session::E2aTlc { edges, w, suites: session::seq_suites(false), tlc_stats: stats }, &cfg, &mut reports, &mut replayed);
+                    }
+                    Err(e) => {
+                        eprintln!("MACHINERY-ERROR {}", e);
+                        std::process::exit(2);
+                    }
+                }
+            }
             let starts: Vec<u64> = if t { session::seq_starts().into_iter().filter(|p| *p % 2 == 1 || *p > u64::MAX - 4 || *p < 3).collect() } else { vec![0, 255, (1 << 32) - 1, (1 << 56) - 1, u64::MAX - 3, u64::MAX - 2, u64::MAX - 1, u64::MAX] };
             go(&session::E2b { suites: session::seq_suites(false), starts, depth: if t { 4 } else { 3 }, letters: (0..12).collect(), label: "full".into() }, &cfg, &mut reports, &mut replayed);
             if t {
